@@ -143,7 +143,7 @@ pub fn gen_spec(rng: &mut Rng, tid: u128) -> ASpec {
         13 => { let mut h = [0u8; 32]; for x in h.iter_mut() { *x = rng.byte(); } ASpec::Userhash(h) }
         14 => ASpec::XorMapped(gen_addr(rng), tid),
         15 => ASpec::AltServer(gen_addr(rng)),
-        _ => { let n = match rng.below(4) { 0 => rng.below(10), 1 => rng.range(508, 516), 2 => rng.range(760, 763), _ => rng.below(64) } as usize; ASpec::Raw(*rng.pick(&[0x7777u16, 0x8888, 0x0001, 0x7fff, 0xffff, 0x0030]), rng.bytes(n)) }
+        _ => { let n = match rng.below(4) { 0 => rng.below(10), 1 => rng.range(508, 516), 2 => rng.range(760, 763), _ => rng.below(64) } as usize; ASpec::Raw(*rng.pick(&[0x7777u16, 0x8888, 0x0001, 0x7fff, 0xffff, 0x0030, 0x0000]), rng.bytes(n)) }
     }
 }
 
@@ -262,7 +262,7 @@ pub fn c08(tier: &str, seed: u64) -> Report {
         }
     }
     // exposed fields of accepted byte strings and re-encode stability for the variable-length types
-    for i in 0..n_cases(tier, 1500, 40000) {
+    for i in 0..n_cases(tier, 5000, 80000) {
         let t_ = rng.next() as u128; let spec = gen_spec(&mut rng, t_);
         if i < 3 { rep.sample(short_spec(&spec)); }
         check_attr_writers(&mut rep, "c08", &spec);
@@ -279,13 +279,13 @@ pub fn c08(tier: &str, seed: u64) -> Report {
 pub fn c12(tier: &str, seed: u64) -> Report {
     let mut rep = Report::new("c12", "constructible values of all 19 attribute types and raw attributes (lengths 0..=763 around every padding residue): in-place writer vs raw conversion vs independent RFC encoder, destinations of len+{0,1,16} and 8 shorter sizes; builders as in C03: build() vs write_into() exact / larger / shorter vs into_owned() vs clone().");
     let mut rng = Rng::new(seed);
-    for i in 0..n_cases(tier, 1500, 40000) {
+    for i in 0..n_cases(tier, 5000, 80000) {
         let t_ = rng.next() as u128; let spec = gen_spec(&mut rng, t_);
         if i < 3 { rep.sample(short_spec(&spec)); }
         check_attr_writers(&mut rep, "c12", &spec);
     }
     for n in 0..=763usize { if tier == "thorough" || n < 24 || n % 13 == 0 || n > 755 { check_attr_writers(&mut rep, "c12", &ASpec::Raw(0x8888, vec![n as u8; n])); } }
-    for _ in 0..n_cases(tier, 250, 6000) { builder_program(&mut rep, "c12", &mut rng, true, false); }
+    for _ in 0..n_cases(tier, 1000, 12000) { builder_program(&mut rep, "c12", &mut rng, true, false); }
     rep
 }
 
@@ -303,7 +303,7 @@ pub fn builder_program(rep: &mut Report, mode: &str, rng: &mut Rng, check_paths:
     for _ in 0..nops {
         ops.push(match rng.below(12) {
             0 | 1 | 2 | 3 => Op::Add(gen_spec(rng, tid)),
-            4 | 5 => { let n = match rng.below(3) { 0 => rng.below(10), 1 => rng.range(508, 516), _ => rng.below(40) } as usize; Op::AddRaw(*rng.pick(&[0x7777u16, 0x8888, 0x0030]), rng.bytes(n)) }
+            4 | 5 => { let n = match rng.below(3) { 0 => rng.below(10), 1 => rng.range(508, 516), _ => rng.below(40) } as usize; Op::AddRaw(*rng.pick(&[0x7777u16, 0x8888, 0x0030, 0x0000]), rng.bytes(n)) }
             6 => Op::Sha1, 7 => Op::Sha256, 8 => Op::Fingerprint, 9 => Op::IntoOwned, 10 => Op::Clone,
             _ => if ops.is_empty() { Op::Fingerprint } else { ops[rng.below(ops.len() as u64) as usize].clone() },   // duplicate
         });
@@ -399,8 +399,8 @@ pub fn builder_program(rep: &mut Report, mode: &str, rng: &mut Rng, check_paths:
         match b.write_into(&mut dirty) {
             Ok(k) if k == built.len() => {
                 match Message::from_bytes(&dirty[..k]) {
-                    Ok(m2) => { let got: Vec<(u16, Vec<u8>)> = m2.iter_attributes().map(|a| (a.get_type().value(), a.value.to_vec())).collect(); if got != model || dirty[..k] != built[..] { rep.violate("C03:write_into-reused-buffer", format!("write_into a reused buffer gives {} which differs from build() {}", hex_short(&dirty[..k]), hex_short(&built)), wit.clone()); } }
-                    Err(e) => rep.violate("C03:write_into-reused-buffer", format!("the message written into a reused (non-zeroed) buffer is refused by the parser: {:?}; bytes {} vs build() {}", e, hex_short(&dirty[..k]), hex_short(&built)), wit.clone()),
+                    Ok(m2) => { let got: Vec<(u16, Vec<u8>)> = m2.iter_attributes().map(|a| (a.get_type().value(), a.value.to_vec())).collect(); if got != model || dirty[..k] != built[..] { rep.violate(&format!("{}:write_into-reused-buffer", mode.to_uppercase()), format!("write_into a reused buffer gives {} which differs from build() {}", hex_short(&dirty[..k]), hex_short(&built)), wit.clone()); } }
+                    Err(e) => rep.violate(&format!("{}:write_into-reused-buffer", mode.to_uppercase()), format!("the message written into a reused (non-zeroed) buffer is refused by the parser: {:?}; bytes {} vs build() {}", e, hex_short(&dirty[..k]), hex_short(&built)), wit.clone()),
                 }
             }
             o => rep.violate("C03:length", format!("write_into(len+3) = {:?} but build() has {} bytes", o, built.len()), wit.clone()),
@@ -432,7 +432,7 @@ fn short_op(o: &Op) -> String { let d = format!("{:?}", o); if d.len() > 100 { d
 pub fn c03(tier: &str, seed: u64) -> Report {
     let mut rep = Report::new("c03", "random builder programs: 4 classes x methods {0,1,0x123,0x7ff,0x800,0xfff} x boundary / random 96-bit transaction ids x 1..7 operations drawn from {typed attribute of all 16 buildable types, raw attribute (lengths 0..9, 508..516, <40), SHA-1, SHA-256, fingerprint, into_owned, clone, duplicate}; build() vs independent serialisation (independent HMAC / CRC), length invariants, parse back with typed equality; non-trivial = at least one attribute accepted.");
     let mut rng = Rng::new(seed);
-    for i in 0..n_cases(tier, 1200, 40000) {
+    for i in 0..n_cases(tier, 6000, 80000) {
         builder_program(&mut rep, "c03", &mut rng, false, false);
         if i == 0 { rep.sample("program of 1..7 builder operations, see rule".into()); }
     }
@@ -451,9 +451,9 @@ pub fn c03(tier: &str, seed: u64) -> Report {
 pub fn c11(tier: &str, seed: u64) -> Report {
     let mut rep = Report::new("c11", "builder operation sequences up to length 7 over {add typed, add raw, add duplicate, SHA-1, SHA-256, fingerprint, into_owned, clone}: each result vs the ordering rules of the statement; after a refused operation build(), byte_len() and has_attribute() for 9 types are compared with their values before; final state: queries vs serialisation, parser acceptance, integrity validation.");
     let mut rng = Rng::new(seed);
-    for _ in 0..n_cases(tier, 2500, 80000) { builder_program(&mut rep, "c11", &mut rng, false, true); }
+    for _ in 0..n_cases(tier, 8000, 120000) { builder_program(&mut rep, "c11", &mut rng, false, true); }
     // exhaustive over the sealing alphabet: all sequences up to length 5 of {o, r, 1, 2, f}
-    let alphabet = 5usize;
+    let alphabet = 6usize;
     let k = if tier == "thorough" { 6 } else { 5 };
     let mut idx: Vec<usize> = vec![];
     let creds = creds_short("pass");
@@ -468,12 +468,13 @@ pub fn c11(tier: &str, seed: u64) -> Report {
                 1 => (b.add_raw_attribute(RawAttribute::new(0x7777.into(), &[1, 2, 3])), 0x7777, !model.contains(&0x7777) && !model.iter().any(|t| [MI, MI256, FP].contains(t))),
                 2 => (b.add_message_integrity(&creds, IntegrityAlgorithm::Sha1), MI, !model.iter().any(|t| [MI, MI256, FP].contains(t))),
                 3 => (b.add_message_integrity(&creds, IntegrityAlgorithm::Sha256), MI256, !model.iter().any(|t| [MI256, FP].contains(t))),
+                5 => (b.add_raw_attribute(RawAttribute::new(0x0000.into(), &[9])), 0x0000, !model.contains(&0x0000) && !model.iter().any(|t| [MI, MI256, FP].contains(t))),
                 _ => (b.add_fingerprint(), FP, !model.contains(&FP)),
             };
             rep.evaluations += 1;
             if res.is_ok() != ok { rep.violate("C11:guard", format!("sequence {:?}: operation {} on {:x?} gave {:?}, rule says {}", idx, i, model, res, ok), format!("c11:seq:{:?}", idx)); }
             if res.is_ok() { model.push(ty); } else if b.build() != before { rep.violate("C11:refused-leaves-trace", format!("sequence {:?}: refused operation changed the serialisation", idx), format!("c11:seq:{:?}", idx)); }
-            for t in [0x8022u16, 0x7777, MI, MI256, FP] { if b.has_attribute(t.into()) != model.contains(&t) { rep.violate("C11:query-vs-serialisation", format!("sequence {:?}: has_attribute({:#06x}) = {} but model {:x?}", idx, t, b.has_attribute(t.into()), model), format!("c11:seq:{:?}", idx)); } }
+            for t in [0x8022u16, 0x7777, MI, MI256, FP, 0x0000] { if b.has_attribute(t.into()) != model.contains(&t) { rep.violate("C11:query-vs-serialisation", format!("sequence {:?}: has_attribute({:#06x}) = {} but model {:x?}", idx, t, b.has_attribute(t.into()), model), format!("c11:seq:{:?}", idx)); } }
         }
         let built = b.build();
         rep.distinct.insert(fnv(&built));
@@ -489,7 +490,7 @@ pub fn c11(tier: &str, seed: u64) -> Report {
         }
         if idx.len() > k { break; }
     }
-    rep.notes.push(format!("exhaustive: all sequences up to length {} over {{typed, raw, SHA-1, SHA-256, fingerprint}}", k));
+    rep.notes.push(format!("exhaustive: all sequences up to length {} over {{typed, raw, SHA-1, SHA-256, fingerprint, raw of type 0x0000}}", k));
     rep
 }
 
@@ -497,7 +498,7 @@ pub fn c11(tier: &str, seed: u64) -> Report {
 pub fn c13(tier: &str, seed: u64) -> Report {
     let mut rep = Report::new("c13", "sampled IPv4/IPv6 addresses x ports x 96-bit transaction ids with boundary patterns (all-zero, all-one, cookie-equal, port 0x2112): decode under t, wire bytes vs independent RFC 8489 s14.2 encoder, wire round trip, other transaction id.");
     let mut rng = Rng::new(seed);
-    for i in 0..n_cases(tier, 5000, 200000) {
+    for i in 0..n_cases(tier, 30000, 400000) {
         let a = gen_addr(&mut rng);
         let tid: u128 = match rng.below(4) { 0 => 0, 1 => (1u128 << 96) - 1, _ => ((rng.next() as u128) << 64 | rng.next() as u128) & ((1u128 << 96) - 1) };
         let spec = ASpec::XorMapped(a, tid);
@@ -536,7 +537,7 @@ pub fn c19(tier: &str, seed: u64) -> Report {
     }
     rep.exhaustive = true;
     let mut rng = Rng::new(seed);
-    for i in 0..n_cases(tier, 3000, 100000) {
+    for i in 0..n_cases(tier, 10000, 200000) {
         let x: u128 = match rng.below(6) { 0 => u128::MAX, 1 => 1u128 << 96, 2 => (1u128 << 96) - 1, 3 => 0, 4 => (1u128 << 97) | 5, _ => (rng.next() as u128) << 64 | rng.next() as u128 };
         let t = TransactionId::from(x);
         let back: u128 = t.into();
